@@ -146,6 +146,11 @@ def regress_scenarios(full):
     add([R("h1", 0, "h_eph_fail"), T(0), T(0, "t.fail"), RS("kill"), T(0), T(0, "t.y"), RS("exit"), T(0)])
     # (not in the random pool: a handler that reacts to every frame is also shown ephemeral frames, and the stream
     # cannot name such a trigger)
+    # C17: the server dies between a replacing .register and the replaced instance's .unregistered (the old instance is
+    # busy inside its closure): exactly the replacing registration comes back (seeded change C17-b, whose detection
+    # otherwise depends on where a random restart happens to fall)
+    add([R("h1", 0, "h_slow"), T(0), dict(T(0, "t.slow"), nowait=True), dict(R("h1", 0, "h_echo"), nowait=True),
+         RS("kill", quiet=False), T(0), T(0, "t.y")])
     # C15 / C06: an explicit append with an ephemeral TTL is a handler output like any other: stamped, in the handler's
     # context, part of the invocation's group (seen through the server-side follower, it is never in the stream)
     add([R("h1", 1, "h_eph_app"), T(1), T(1, "t.y"), T(0), R("h2", 0, "h_eph_app"), T(0), U("h1", 1), T(1)])
